@@ -39,7 +39,7 @@ Definition lf (ch : list member) : tv :=
   end.
 
 Definition member_ok (m : member) : Prop :=
-  match m with Mem v => valid (rm_ext v) = true | Pre _ => True end.
+  match m with Mem v => valid (rm_ext v) = true /\ bad_key v = None | Pre _ => True end.
 
 Lemma chain_nonempty : forall fs v bp ch, chain_of fs v bp ch -> ch <> [].
 Proof. intros fs v bp ch Hc. inv Hc; try discriminate; destruct ch0; discriminate. Qed.
@@ -159,11 +159,15 @@ Definition base_of (fs : fsys) (f : nat) (v : tv) (base_path : option str) (visi
 
 Lemma resolve_unfold : forall fs f v bp vis d,
   resolve_val fs (S f) v bp vis d =
+  match bad_key v with
+  | Some k => Err (EBadKey k)
+  | None =>
   match as_str (tv_get K_extends v) with
   | None => bind (finish v) (fun r => Ok (r, None))
   | Some e => bind (base_of fs f v bp vis d e) (after v)
+  end
   end.
-Proof. intros. reflexivity. Qed.
+Proof. intros. cbn [resolve_val]. destruct (bad_key v); reflexivity. Qed.
 
 Lemma bind_ok : forall (A B : Type) (r : res A) (f : A -> res B) b,
   bind r f = Ok b -> exists a, r = Ok a /\ f a = Ok b.
@@ -182,7 +186,8 @@ Lemma resolve_terminates : forall fs fuel v bp vis d,
   (N.to_nat (MAX - d) < fuel)%nat -> resolve_val fs fuel v bp vis d <> OutOfFuel.
 Proof.
   intros fs. induction fuel as [|f IH]; intros v bp vis d Hf; [lia|].
-  rewrite resolve_unfold. destruct (as_str (tv_get K_extends v)) as [e|].
+  rewrite resolve_unfold. destruct (bad_key v); [discriminate|].
+  destruct (as_str (tv_get K_extends v)) as [e|].
   - intros Ho. apply bind_oof in Ho. destruct Ho as [Ho|[a [_ Ho]]]; [|eapply after_not_oof; eauto].
     unfold base_of in Ho.
     assert (Hrec : forall x y z, (MAX <? d + 1) = false -> resolve_val fs f x y z (d + 1) <> OutOfFuel).
@@ -200,9 +205,9 @@ Proof.
   - destruct (finish_cases v) as [[r E]|[p [i E]]]; rewrite E; cbn; discriminate.
 Qed.
 
-Lemma load_top_terminates : forall fs path ne, load_top fs path ne <> OutOfFuel.
+Lemma load_core_terminates : forall fs path ne, load_core fs path ne <> OutOfFuel.
 Proof.
-  intros fs path ne. unfold load_top.
+  intros fs path ne. unfold load_core.
   destruct (fs_read fs path) as [| |v]; try discriminate.
   destruct (negb ne && has_key K_extends v).
   - destruct (fs_canon fs path) as [key|]; [|discriminate].
@@ -232,7 +237,8 @@ Lemma resolve_ok : forall fs, presets_plain fs -> forall fuel v bp vis d r pu,
   exists ch, chain_of fs v bp ch /\ r = strip (lf ch) /\ valid (lf ch) = true /\ Forall member_ok ch.
 Proof.
   intros fs Hpre. induction fuel as [|f IH]; intros v bp vis d r pu Hr; [discriminate|].
-  rewrite resolve_unfold in Hr. destruct (as_str (tv_get K_extends v)) as [e|] eqn:Ee.
+  rewrite resolve_unfold in Hr. destruct (bad_key v) eqn:Ebk; [discriminate|].
+  destruct (as_str (tv_get K_extends v)) as [e|] eqn:Ee.
   - apply bind_ok in Hr. destruct Hr as [[rb pb] [Hb Ha]].
     apply after_ok in Ha. destruct Ha as [-> [Hv Hfin]].
     assert (Hstep : forall x y z w, resolve_val fs f x y z w = Ok (rb, pu) -> chain_of fs x y
@@ -243,14 +249,14 @@ Proof.
       destruct (tail_step _ _ _ HvF Hv Hfin) as [-> Hval].
       exists (chx ++ [Mem v]). rewrite lf_snoc by (eapply chain_nonempty; eauto). cbn [mval].
       split; [assumption|]. split; [reflexivity|]. split; [assumption|].
-      apply Forall_app. split; auto. constructor; auto. cbn. apply rm_ext_valid. assumption. }
+      apply Forall_app. split; auto. constructor; auto. cbn. split; [apply rm_ext_valid; assumption|assumption]. }
     unfold base_of in Hb.
     destruct (is_prefix P_preset e) eqn:Ep.
     { destruct (fs_preset fs (drop 7 e)) as [pv|] eqn:Epv; [|discriminate]. inv Hb.
       apply finish_ok in Hfin. destruct Hfin as [Hval ->].
       exists [Pre rb; Mem v]. cbn [lf map fold_left mval]. unfold lvl. rewrite (Hpre _ _ Epv).
       split; [eapply ch_preset; eauto|]. split; [reflexivity|]. split; [assumption|].
-      constructor; cbn; auto. constructor; auto. cbn. apply rm_ext_valid. assumption. }
+      constructor; cbn; auto. constructor; auto. cbn. split; [apply rm_ext_valid; assumption|assumption]. }
     destruct (is_remote e) eqn:Er.
     { destruct (MAX <? d + 1); [discriminate|]. destruct (mem e vis); [discriminate|].
       destruct (fs_remote fs e (as_str (tv_get K_sha v))) as [k| |rv] eqn:Ef; try discriminate.
@@ -267,7 +273,7 @@ Proof.
     apply finish_ok in Hfin. destruct Hfin as [Hval ->].
     exists [Mem v]. cbn [lf map fold_left mval].
     split; [apply ch_base; assumption|]. split; [reflexivity|]. split; [assumption|].
-    constructor; auto.
+    constructor; auto. cbn. auto.
 Qed.
 
 (* the chain is a function of the file system: needed to turn resolve_ok around *)
@@ -287,7 +293,18 @@ Proof.
   intros fs Hpre v bp ch m Hc Hin Hbad fuel vis d [r pu] Hr.
   destruct (resolve_ok fs Hpre _ _ _ _ _ _ _ Hr) as [ch' [Hc' [_ [_ Hall]]]].
   assert (ch' = ch) by (eapply chain_functional; eauto). subst.
-  rewrite Forall_forall in Hall. specialize (Hall _ Hin). cbn in Hall. congruence.
+  rewrite Forall_forall in Hall. specialize (Hall _ Hin). cbn in Hall. destruct Hall. congruence.
+Qed.
+
+(* a member whose inheritance key is present but not a string makes resolution fail *)
+Lemma bad_key_rejected : forall fs, presets_plain fs -> forall v bp ch m,
+  chain_of fs v bp ch -> In (Mem m) ch -> bad_key m <> None ->
+  forall fuel vis d rp, resolve_val fs fuel v bp vis d <> Ok rp.
+Proof.
+  intros fs Hpre v bp ch m Hc Hin Hbad fuel vis d [r pu] Hr.
+  destruct (resolve_ok fs Hpre _ _ _ _ _ _ _ Hr) as [ch' [Hc' [_ [_ Hall]]]].
+  assert (ch' = ch) by (eapply chain_functional; eauto). subst.
+  rewrite Forall_forall in Hall. specialize (Hall _ Hin). cbn in Hall. destruct Hall. congruence.
 Qed.
 
 (* ---- C16_cycle_or_depth_names_chain *)
@@ -299,7 +316,8 @@ Lemma names_chain : forall fs fuel v bp vis d,
      dd = MAX + 1 /\ exists suf, ch = vis ++ suf /\ N.of_nat (length suf) = MAX - d).
 Proof.
   intros fs. induction fuel as [|f IH]; intros v bp vis d Hd; [split; intros; discriminate|].
-  rewrite resolve_unfold. destruct (as_str (tv_get K_extends v)) as [e|].
+  rewrite resolve_unfold. destruct (bad_key v); [split; intros; discriminate|].
+  destruct (as_str (tv_get K_extends v)) as [e|].
   2:{ destruct (finish_cases v) as [[r E]|[p [i E]]]; rewrite E; cbn; split; intros; discriminate. }
   assert (Hmem : forall k l, mem k l = true -> In k l).
   { induction l as [|x t IHl]; cbn; [discriminate|]. intros Hm. apply orb_true_iff in Hm.
@@ -346,7 +364,7 @@ Proof.
     apply after_err in E. destruct E as [p [i E]]. discriminate.
 Qed.
 
-(* ---- top level: load_top *)
+(* ---- top level: load_core *)
 Lemma tab_get_remove_same : forall k l, tab_get k (tab_remove k l) = None.
 Proof.
   induction l as [|[k' v] t IH]; cbn; auto. destruct (str_eqb k k') eqn:E; auto. cbn. rewrite E. auto.
@@ -378,6 +396,7 @@ Proof.
   intros fs [|f] v bp vis d m pu Hr; [discriminate|]. rewrite resolve_unfold in Hr.
   assert (G : forall X, finish X = Ok m -> exists X, m = strip (rm_ext X) /\ valid (rm_ext X) = true).
   { intros X Hf. apply finish_ok in Hf. destruct Hf as [Hv ->]. eauto. }
+  destruct (bad_key v); [discriminate|].
   destruct (as_str (tv_get K_extends v)) as [e|].
   - apply bind_ok in Hr. destruct Hr as [[rb pb] [_ Ha]]. apply after_ok in Ha. destruct Ha as [_ [_ Hf]]. eauto.
   - apply bind_ok in Hr. destruct Hr as [r' [Hf E]]. inv E. eauto.
@@ -385,9 +404,9 @@ Qed.
 
 (* C16_no_marker_survives *)
 Lemma no_marker_survives : forall fs path ne r pu,
-  load_top fs path ne = Ok (r, pu) -> has_any r = false.
+  load_core fs path ne = Ok (r, pu) -> has_any r = false.
 Proof.
-  intros fs path ne r pu. unfold load_top.
+  intros fs path ne r pu. unfold load_core.
   destruct (fs_read fs path) as [| |v]; try discriminate.
   destruct (negb ne && has_key K_extends v).
   - destruct (fs_canon fs path) as [key|]; [|discriminate]. intros Hb.
@@ -402,23 +421,23 @@ Qed.
 
 (* C16_no_extends_is_leaf *)
 Lemma no_extends_is_leaf : forall fs path,
-  load_top fs path true =
+  load_core fs path true =
   match fs_read fs path with
   | RdMissing => Err (EFileAccess path)
   | RdSyntax => Err (ESyntax path)
   | RdOk v => if has_any v then bind (finalize v) (fun r => Ok (r, None)) else Ok (v, None)
   end.
-Proof. intros. unfold load_top. destruct (fs_read fs path); reflexivity. Qed.
+Proof. intros. unfold load_core. destruct (fs_read fs path); reflexivity. Qed.
 
 Lemma no_extends_local : forall fs fs' path,
-  fs_read fs path = fs_read fs' path -> load_top fs path true = load_top fs' path true.
+  fs_read fs path = fs_read fs' path -> load_core fs path true = load_core fs' path true.
 Proof. intros fs fs' path E. rewrite !no_extends_is_leaf, E. reflexivity. Qed.
 
 (* the effective value never carries the inheritance key *)
 Lemma result_has_no_extends : forall fs path r pu,
-  load_top fs path false = Ok (r, pu) -> has_key K_extends r = false.
+  load_core fs path false = Ok (r, pu) -> has_key K_extends r = false.
 Proof.
-  intros fs path r pu. unfold load_top.
+  intros fs path r pu. unfold load_core.
   destruct (fs_read fs path) as [| |v]; try discriminate. cbn [negb andb].
   destruct (has_key K_extends v) eqn:Hk.
   - destruct (fs_canon fs path) as [key|]; [|discriminate]. intros Hb.
@@ -435,10 +454,10 @@ Qed.
 
 (* C16_flatten_equivalent *)
 Lemma flatten_equivalent : forall fs path r pu,
-  load_top fs path false = Ok (r, pu) ->
-  forall fs' p' ne, fs_read fs' p' = RdOk r -> load_top fs' p' ne = Ok (r, None).
+  load_core fs path false = Ok (r, pu) ->
+  forall fs' p' ne, fs_read fs' p' = RdOk r -> load_core fs' p' ne = Ok (r, None).
 Proof.
-  intros fs path r pu Hl fs' p' ne Hrd. unfold load_top. rewrite Hrd.
+  intros fs path r pu Hl fs' p' ne Hrd. unfold load_core. rewrite Hrd.
   rewrite (result_has_no_extends _ _ _ _ Hl). rewrite andb_false_r.
   rewrite (no_marker_survives _ _ _ _ _ Hl). reflexivity.
 Qed.
@@ -446,10 +465,10 @@ Qed.
 (* C16_is_left_fold at the top level *)
 Lemma top_left_fold : forall fs, presets_plain fs -> forall path v r pu,
   fs_read fs path = RdOk v -> has_key K_extends v = true ->
-  load_top fs path false = Ok (r, pu) ->
+  load_core fs path false = Ok (r, pu) ->
   exists ch, chain_of fs v (Some path) ch /\ r = strip (lf ch) /\ Forall member_ok ch.
 Proof.
-  intros fs Hpre path v r pu Hrd Hk. unfold load_top. rewrite Hrd, Hk. cbn [negb andb].
+  intros fs Hpre path v r pu Hrd Hk. unfold load_core. rewrite Hrd, Hk. cbn [negb andb].
   destruct (fs_canon fs path) as [key|]; [|discriminate]. intros Hb.
   apply bind_ok in Hb. destruct Hb as [[m pm] [Hr Hb]]. cbn [fst snd] in Hb.
   apply bind_ok in Hb. destruct Hb as [r' [Hf E]]. inv E.
@@ -461,20 +480,20 @@ Qed.
 Lemma top_misplaced_rejected : forall fs, presets_plain fs -> forall path v ch m,
   fs_read fs path = RdOk v -> has_key K_extends v = true ->
   chain_of fs v (Some path) ch -> In (Mem m) ch -> valid (rm_ext m) = false ->
-  forall rp, load_top fs path false <> Ok rp.
+  forall rp, load_core fs path false <> Ok rp.
 Proof.
   intros fs Hpre path v ch m Hrd Hk Hc Hin Hbad [r pu] Hl.
   destruct (top_left_fold fs Hpre _ _ _ _ Hrd Hk Hl) as [ch' [Hc' [_ Hall]]].
   assert (ch' = ch) by (eapply chain_functional; eauto). subst.
-  rewrite Forall_forall in Hall. specialize (Hall _ Hin). cbn in Hall. congruence.
+  rewrite Forall_forall in Hall. specialize (Hall _ Hin). cbn in Hall. destruct Hall. congruence.
 Qed.
 
 (* a single file (or --no-extends): a misplaced marker is rejected as well *)
 Lemma single_misplaced_rejected : forall fs path v ne,
   fs_read fs path = RdOk v -> (negb ne && has_key K_extends v) = false -> valid v = false ->
-  forall rp, load_top fs path ne <> Ok rp.
+  forall rp, load_core fs path ne <> Ok rp.
 Proof.
-  intros fs path v ne Hrd Hm Hbad [r pu]. unfold load_top. rewrite Hrd, Hm.
+  intros fs path v ne Hrd Hm Hbad [r pu]. unfold load_core. rewrite Hrd, Hm.
   destruct (has_any v) eqn:Ha.
   - intros Hb. apply bind_ok in Hb. destruct Hb as [r' [Hf E]].
     apply finalize_ok in Hf. destruct Hf as [Hv _]. congruence.
@@ -484,12 +503,12 @@ Qed.
 (* C16_cycle_or_depth_names_chain at the top level: the chain starts with the leaf's own key *)
 Lemma top_names_chain : forall fs path v key,
   fs_read fs path = RdOk v -> fs_canon fs path = Some key ->
-  (forall ch, load_top fs path false = Err (ECircular ch) ->
+  (forall ch, load_core fs path false = Err (ECircular ch) ->
      exists suf k, ch = key :: suf ++ [k] /\ In k (key :: suf)) /\
-  (forall dd ch, load_top fs path false = Err (ETooDeep dd ch) ->
+  (forall dd ch, load_core fs path false = Err (ETooDeep dd ch) ->
      dd = MAX + 1 /\ exists suf, ch = key :: suf /\ N.of_nat (length ch) = MAX + 1).
 Proof.
-  intros fs path v key Hrd Hc. unfold load_top. rewrite Hrd. cbn [negb andb].
+  intros fs path v key Hrd Hc. unfold load_core. rewrite Hrd. cbn [negb andb].
   destruct (has_key K_extends v).
   2:{ destruct (has_any v); split; intros; try discriminate;
       unfold finalize in H; destruct (check_valid_cases v) as [E|[p [i E]]]; rewrite E in H; cbn in H; discriminate. }
